@@ -8,6 +8,7 @@ package main
 
 import (
 	"context"
+	"database/sql"
 	"fmt"
 	"math/big"
 	"os"
@@ -128,11 +129,12 @@ type rsSub struct {
 }
 
 type rsRewinds struct {
-	mu      gosync.Mutex
-	at      []uint64
-	crash   bool // the next rewind never completes (the node is stopped during it)
-	dead    bool // this driver instance belongs to a stopped node
-	entered int
+	afterReorg func() // called after a committed rewind, before the driver acknowledges it
+	mu         gosync.Mutex
+	at         []uint64
+	crash      bool // the next rewind never completes (the node is stopped during it)
+	dead       bool // this driver instance belongs to a stopped node
+	entered    int
 }
 
 type rsWorld struct {
@@ -233,7 +235,11 @@ func (p *rsProcWrap) Reorg(ctx context.Context, first uint64) error {
 	if err == nil {
 		p.rw.mu.Lock()
 		p.rw.at = append(p.rw.at, first)
+		hook := p.rw.afterReorg
 		p.rw.mu.Unlock()
+		if hook != nil {
+			hook()
+		}
 	}
 	return err
 }
@@ -515,6 +521,9 @@ func (w *rsWorld) exec(line string) string {
 		}
 		w.r.Count("detect-crash")
 		return out
+	case "race": // directed schedule for known finding F5, in a world of its own
+		w.raceExperiment()
+		return "race done"
 	case "restart":
 		w.stop()
 		w.start()
@@ -550,6 +559,85 @@ func (w *rsWorld) exec(line string) string {
 	panic("bad op " + line)
 }
 
+// F5: the detector drops the tracked range only after the driver has acknowledged the reorg. If the detector is slow at
+// that point (here: its database is busy) the resumed driver re-tracks the first block of the new fork in between, and the
+// detector then wipes that entry: a processed, non-finalized block is no longer tracked, so a later reorg of it goes unseen.
+func (w *rsWorld) raceExperiment() {
+	x := &rsWorld{r: w.r}
+	defer x.close()
+	dir, err := os.MkdirTemp(w.r.OutDir, "rsrace")
+	must(err)
+	x.dir = dir
+	x.chain = &rsChain{nextV: map[uint64]int{}}
+	x.hashOf = map[common.Hash]string{}
+	x.subs = []*rsSub{{id: "A", path: filepath.Join(dir, "A.sqlite")}}
+	x.start()
+	for i := 0; i < 5; i++ {
+		x.exec("blk 0")
+	}
+	x.exec("step A 5")
+	x.exec("reorg 4")
+	x.exec("blk 0")
+	x.exec("blk 0")
+	s := x.subs[0]
+	locked := make(chan *sql.Tx, 1)
+	s.rw.mu.Lock()
+	s.rw.afterReorg = func() {
+		ctl, err := openCtl(filepath.Join(dir, "rd.sqlite"))
+		must(err)
+		tx, err := ctl.Begin() // _txlock=exclusive: the detector's next write waits for this transaction
+		must(err)
+		locked <- tx
+	}
+	s.rw.mu.Unlock()
+	s.dl.mu.Lock()
+	gen := s.dl.gen
+	s.dl.mu.Unlock()
+	done := make(chan struct{})
+	go func() { x.rd.VerifDetectOnce(context.Background()); close(done) }()
+	var tx *sql.Tx
+	select {
+	case tx = <-locked:
+	case <-time.After(5 * time.Second):
+		panic("harness: race experiment: no rewind happened")
+	}
+	s.rw.mu.Lock()
+	s.rw.afterReorg = nil
+	s.rw.mu.Unlock()
+	x.waitRun(s, gen) // the driver has acknowledged the reorg and restarted its downloader
+	s.dl.mu.Lock()
+	run := s.dl.cur
+	s.dl.mu.Unlock()
+	reply := make(chan bool)
+	run.permits <- reply
+	<-reply                            // block 4 of the new fork is with the driver: it tracks it (memory first) …
+	time.Sleep(150 * time.Millisecond) // … while the detector still waits for its database
+	must(tx.Commit())
+	select {
+	case <-done:
+	case <-time.After(10 * time.Second):
+		panic("harness: race experiment: detection pass did not finish")
+	}
+	deadline := time.Now().Add(5 * time.Second)
+	for len(x.stored(s)) < 4 && time.Now().Before(deadline) {
+		time.Sleep(time.Millisecond)
+	}
+	st, tr := x.stored(s), x.tracked(s)
+	w.r.Evals++
+	has := func(l []string, v string) bool {
+		for _, e := range l {
+			if e == v {
+				return true
+			}
+		}
+		return false
+	}
+	if has(st, "4.2") && !has(tr, "4.2") {
+		w.r.Fail("[C06] F5 a block re-tracked between the driver's acknowledgement of a reorg and the detector's removal of the tracked range is wiped: block 4.2 is processed (store "+lst(st)+") but not tracked (tracked "+lst(tr)+"), a later reorg of it would go unseen",
+			[]string{"race"})
+	}
+}
+
 func rsWrap(p *bridgesync.VerifProcessor, rw *rsRewinds) *rsProcWrap {
 	return &rsProcWrap{rsFull: p.P, rw: rw}
 }
@@ -565,6 +653,9 @@ func rsReplay(r *Run, lines []string) {
 func rsGen(r *Run, rng *Rng) {
 	w := &rsWorld{r: r}
 	defer w.close()
+	defer func() {
+		r.Emit("race", w.exec("race"))
+	}()
 	nw, steps := 10, 40
 	if r.Tier == "thorough" {
 		nw, steps = 60, 80
